@@ -215,28 +215,20 @@ func (fi *File) Mode() (os.FileMode, error) {
 }
 
 func (fi *File) SetMode(mode os.FileMode) error {
-	nd, err := fi.GetNode()
-	if err != nil {
-		return err
-	}
-
-	fsn, err := ft.ExtractFSNode(nd)
-	if err != nil {
-		if errors.Is(err, ft.ErrNotProtoNode) {
-			// Wrap raw node in protonode.
-			data := nd.RawData()
-			return fi.setNodeData(ft.FilePBDataWithStat(data, uint64(len(data)), mode, time.Time{}))
+	return fi.updateNodeData(func(nd ipld.Node) ([]byte, error) {
+		fsn, err := ft.ExtractFSNode(nd)
+		if err != nil {
+			if errors.Is(err, ft.ErrNotProtoNode) {
+				// Wrap raw node in protonode.
+				data := nd.RawData()
+				return ft.FilePBDataWithStat(data, uint64(len(data)), mode, time.Time{}), nil
+			}
+			return nil, err
 		}
-		return err
-	}
 
-	fsn.SetMode(mode)
-	data, err := fsn.GetBytes()
-	if err != nil {
-		return err
-	}
-
-	return fi.setNodeData(data)
+		fsn.SetMode(mode)
+		return fsn.GetBytes()
+	})
 }
 
 // ModTime returns the files' last modification time.
@@ -255,31 +247,34 @@ func (fi *File) ModTime() (time.Time, error) {
 
 // SetModTime sets the files' last modification time.
 func (fi *File) SetModTime(ts time.Time) error {
-	nd, err := fi.GetNode()
-	if err != nil {
-		return err
-	}
-
-	fsn, err := ft.ExtractFSNode(nd)
-	if err != nil {
-		if errors.Is(err, ft.ErrNotProtoNode) {
-			// Wrap raw node in protonode.
-			data := nd.RawData()
-			return fi.setNodeData(ft.FilePBDataWithStat(data, uint64(len(data)), 0, ts))
+	return fi.updateNodeData(func(nd ipld.Node) ([]byte, error) {
+		fsn, err := ft.ExtractFSNode(nd)
+		if err != nil {
+			if errors.Is(err, ft.ErrNotProtoNode) {
+				// Wrap raw node in protonode.
+				data := nd.RawData()
+				return ft.FilePBDataWithStat(data, uint64(len(data)), 0, ts), nil
+			}
+			return nil, err
 		}
-		return err
-	}
 
-	fsn.SetModTime(ts)
-	data, err := fsn.GetBytes()
-	if err != nil {
-		return err
-	}
-
-	return fi.setNodeData(data)
+		fsn.SetModTime(ts)
+		return fsn.GetBytes()
+	})
 }
 
-func (fi *File) setNodeData(data []byte) error {
+// updateNodeData replaces the file's node by one whose UnixFS data is computed
+// by update from the current node. The whole read-modify-write runs under
+// nodeLock: done on an unlocked snapshot it can interleave with flushUp (or
+// with another update) and store a node derived from a stale one, silently
+// undoing a write that was already flushed.
+func (fi *File) updateNodeData(update func(ipld.Node) ([]byte, error)) error {
+	fi.nodeLock.Lock()
+	data, err := update(fi.node)
+	if err != nil {
+		fi.nodeLock.Unlock()
+		return err
+	}
 	nd := dag.NodeWithData(data)
 
 	// Preserve the previous node's links (file content blocks) and
@@ -292,8 +287,9 @@ func (fi *File) setNodeData(data []byte) error {
 		}
 	}
 
-	err := fi.dagService.Add(context.TODO(), nd)
+	err = fi.dagService.Add(context.TODO(), nd)
 	if err != nil {
+		fi.nodeLock.Unlock()
 		return err
 	}
 
@@ -304,10 +300,9 @@ func (fi *File) setNodeData(data []byte) error {
 		}
 	}
 
-	fi.nodeLock.Lock()
 	fi.node = nd
 	parent := fi.parent
 	name := fi.name
 	fi.nodeLock.Unlock()
-	return parent.updateChildEntry(child{name, fi.node})
+	return parent.updateChildEntry(child{name, nd})
 }
